@@ -93,8 +93,8 @@ CHECKS = {
          "random) x input classes for isqrt/decompress/Elligator/compress, and offered witness coordinates (other coset member, "
          "rescaled/off-curve/random pairs, curve points outside 2E): whenever the real constraint system is satisfied TLC "
          "checks the output equals the native result and the native operation accepts. The den = 0 hole is a recorded known "
-         "finding (known_findings.txt). Not substituted: the bit witnesses allocated by to_bits_le inside the sign gadget "
-         "(seeded change S102 is missed by this check and reported by C15 only; DESIGN section 11 item 5).", "5 C14"),
+         "finding (known_findings.txt). Bit-decomposition witnesses are substituted as well: every window of 253 Boolean witnesses "
+         "holding a canonical c with c + q < 2^253 is overwritten by the bits of c + q (seeded change S102).", "5 C14"),
  "C15": ("Circuit registry in R1csTrace.tla: the shape (constraints, instance and witness variables, hash of the A/B/C matrices) "
          "of each gadget x mode and of the seven pinned circuits is bound at first observation and must be reproduced for every "
          "input and in setup vs proving mode; a public-input element contributes exactly one instance variable = EncodeSpec = "
